@@ -46,6 +46,10 @@ def strategy(tier):
         units = [draw(unit) for _ in range(3)]
         if draw(st.sampled_from([False, False, True])):
             units = [draw(st.integers(1, 3)) for _ in range(3)]     # integer-typed element sizes
+        # physical length scale (nanometre / micrometre pixels in metres, kilometre cells)
+        uscale = draw(st.sampled_from([1.0, 1.0, 1.0, 1e-9, 1e-6, 1e3]))
+        if uscale != 1.0:
+            units = [float(u) * uscale for u in units]
         return {"nel": nel, "unit": units, "ndof": draw(st.integers(1, 4)),
                 "pts": draw(st.lists(st.lists(coord, min_size=3, max_size=3), min_size=1, max_size=4)),
                 # custom local node order ("users may override this in their program to use custom numbering"):
@@ -314,7 +318,7 @@ def _check_shape(dom, dim, unit, pts, bad):
         if abs(N.sum() - 1) > 1e-13:
             bad("shape_partition_of_unity", f"sum N = {N.sum()} at {x}")
         xr = sum(N[l] * np.array(nod[l]) * h / 2 for l in range(2 ** dim))
-        if not np.allclose(xr, x, atol=1e-13 * max(1, h.max())):
+        if not np.allclose(xr, x, atol=1e-13 * h.max()):
             bad("shape_reproduces_point", f"sum N_l pos_l = {xr} at {x}")
         # own reference: product of 1-D hat functions
         ref = np.array([np.prod([0.5 + nod[l][a] * x[a] / h[a] for a in range(dim)]) for l in range(2 ** dim)])
